@@ -766,8 +766,20 @@ func findSequencesInList(paths []*fileItem, opts *findSeqOptions) (FileSequences
 			if !(strings.HasPrefix(item.FileName, baseName) && strings.HasSuffix(item.FileName, ext)) {
 				continue
 			}
+			if len(item.FileName) < len(baseName)+len(ext) {
+				// the prefix and the suffix overlap
+				continue
+			}
 			frameStr = item.FileName[len(baseName) : len(item.FileName)-len(ext)]
-			_ = frameStr
+
+			// what sits between the basename and the extension
+			// has to be a frame number
+			if !rangePatterns[1].MatchString(frameStr) {
+				continue
+			}
+			if _, err := strconv.Atoi(frameStr); err != nil {
+				continue
+			}
 
 		} else {
 			// otherwise, we need to do some tests on the path and figure
